@@ -17,6 +17,23 @@ CLAIMED = {
    ref="4 C19, Appendix A.1"),
 }
 
+CLAIMED.update({
+ "C07": dict(
+   text="Deductive proof of the slot ledger per operation on the real text of Gatekeeper::{add_update_user, add_update_appointment, delete_appointments}: exact balance "
+        "equations (grant +S checked, charge/return only the difference, reject leaves everything unchanged, refund == sum of slots of the deleted rows, no refund otherwise) and "
+        "returned == in-memory == persisted on every path (mirror invariant); the f32 slot formula is proved == ceil(n/2048) and >= 1 for all 1 <= n <= 2^24 by a loop-free Kani function contract.",
+   note=TB + " DBM SQL semantics assumed; A1 no-overflow precondition; blobs <= 2^24 bytes. The Watcher-side chain (who calls these with which row) is covered by the watcher unit when claimed under C01/C08.",
+   technique="contract-based deductive verification (Verus) + Kani function contract (proof_for_contract, loop-free, complete) for the float formula",
+   ref="4 C07, Appendix A.2"),
+ "C09": dict(
+   text="Deductive proof on the real text of Gatekeeper::{add_update_user, has_subscription_expired, get_outdated_users, filtered_block_connected, block_disconnected}: window (S,h,h+D) / renewal "
+        "(+S checked, start kept, expiry +D saturating), expired <=> height >= expiry with the expiry returned, purge removes exactly the users with height >= expiry + delta from memory and database "
+        "(cascade only to their appointments), others untouched, height stored / decremented; for every (S, D, delta) incl. 0 and u32::MAX.",
+   note=TB + " A4 heights < u32::MAX; cascade semantics of batch_remove_users assumed (SQL).",
+   technique="contract-based deductive verification (Verus requires/ensures/loop invariants on mechanically extracted functions)",
+   ref="4 C09, Appendix A.2"),
+})
+
 NA = {
  "C03": "quantifies over process-death points, re-bootstrap of an async multi-component program and SQLite durability; no function contract expresses it (DESIGN.md 5)",
  "C10": "schedule/linearizability property; Kani has no threads and Verus only verifies concurrency for programs rewritten with its own lock/permission types; extraction rule E5 removes interleavings by construction",
@@ -55,7 +72,7 @@ m = {
               "kind_free_text": "mechanical extraction of real functions + Verus (deductive, unbounded) / Kani function contracts (loop-free, complete); bounded harnesses labelled bounded"}],
  "checks": checks,
  "not_applicable": na,
- "notes": "fix: commits in /repo: 4c8a027 (TxIndex::get_height). Known findings: /verif/known_findings.json.",
+ "notes": "fix: commits in /repo: 4c8a027 (TxIndex::get_height), 94cd4a9 (Gatekeeper expiry arithmetic). Known findings: /verif/known_findings.json.",
 }
 json.dump(m, open(os.path.join(VERIF, "MANIFEST.json"), "w"), indent=1)
 print("MANIFEST.json: %d checks, %d not_applicable" % (len(checks), len(na)))
